@@ -82,8 +82,19 @@ def get_count():
     return _Counter.count
 
 
-def make_reader(src, ignore_comments=True, file_path=None, source_form=None, **kw):
-    """source_form: None = auto-detect (default), 'fix' / 'free' = set explicitly after construction."""
+_tmp_n = [0]
+
+
+def make_reader(src, ignore_comments=True, file_path=None, source_form=None, via_file=False, **kw):
+    """source_form: None = auto-detect (default), 'fix' / 'free' = set explicitly after construction.
+    via_file: write src to a scratch file under .work/ and read it with FortranFileReader (same options)."""
+    if via_file and file_path is None:
+        d = os.path.join(VERIF_DIR, ".work", "src_%d" % os.getpid())
+        os.makedirs(d, exist_ok=True)
+        _tmp_n[0] = (_tmp_n[0] + 1) % 4
+        file_path = os.path.join(d, "case%d.src" % _tmp_n[0])
+        with open(file_path, "w", encoding="utf-8", newline="") as fh:
+            fh.write(src)
     if file_path is not None:
         reader = FortranFileReader(file_path, ignore_comments=ignore_comments, **kw)
     else:
